@@ -10,6 +10,17 @@ BASELINE = ("cd /repo && /venv/bin/python -m pytest -ra -q -p no:cacheprovider -
 
 # id -> (category, technique, level text, level note, design ref)
 CHECKS = {
+    "C17": ("fault_enumeration",
+            "Hypothesis-generated directory trees of good and bad files run through the three batch tools in a "
+            "scratch directory; file-system oracle (hashes, listing, confinement) + content oracle on outputs",
+            "Trees are assembled from the ten file kinds the property lists in drawn order and nesting, with "
+            "directory names incl. regex metacharacters, and given to odmlconvert, odmltordf and the format "
+            "converter (all target formats but trix) with recursion and explicit/implicit output directories. "
+            "Input hashes and listing must be unchanged, every created path must lie in the output location, "
+            "each output must load / parse and carry its source's content, and the command line tools must "
+            "return, report bad files and still convert every convertible file.",
+            "Unique base names; the format converter is only required to convert files its target accepts.",
+            "DESIGN.md section 5, C17"),
     "C15": ("translation_validation",
             "Hypothesis-generated odML 1.0 documents through three independent emitters; each converted "
             "document validated against an independent model of the documented 1.0->1.1 mapping",
